@@ -62,6 +62,8 @@ type c05Case struct {
 	Vec    []int  `json:"vector"`
 	Method int    `json:"method_annotation"`
 	SrvErr bool   `json:"server_errors"`
+	Step   int    `json:"history_step"` // > 0: n-th verification on one and the same verifier instance (the verdict must not depend on earlier calls)
+	hist   *c05Hist
 	Anchor int    `json:"trust_anchor"` // which certificate of the chain the trust store holds: 0 root, 1 middle, 2 leaf
 	// observation
 	Calls    []string `json:"obs_calls"`
@@ -69,11 +71,19 @@ type c05Case struct {
 	Rejected bool     `json:"obs_rejected"`
 }
 
+// c05Hist is one verifier instance used for a whole history of verifications, with a
+// validator whose scripted answer is changed between the steps.
+type c05Hist struct {
+	v      notation.Verifier
+	script *RevScript
+	calls  *[]RevCall
+}
+
 func runC05(a *Args) error {
 	rng := NewRng(a.Seed)
 	prelude := "From NV Require Import Base C05_Model.\nOpen Scope string_scope.\n"
 	w := NewCaseWriter(a, "C05", prelude, "case", "run")
-	w.Rule = "every result vector over {OK,NonRevokable,Unknown,Revoked}^n (n=1..4 exhaustively; thorough adds n=5,6 exhaustively and random n<=12 with out-of-range result values) x action x validator interface x scheme x envelope format x position of the trust anchor in the chain (root / middle / leaf held by the listed store), plus validator errors, short vectors and the library-default validator; run through the real verifier.Verify. non-trivial = revocation not skipped and (some certificate not OK, or a validator error); distinct = distinct (vector, action, validators, scheme, format, error) tuples"
+	w.Rule = "every result vector over {OK,NonRevokable,Unknown,Revoked}^n (n=1..4 exhaustively; thorough adds n=5,6 exhaustively and random n<=12 with out-of-range result values) x action x validator interface x scheme x envelope format x position of the trust anchor in the chain (root / middle / leaf held by the listed store), plus validator errors, short vectors, the library-default validator, and histories of 2-4 verifications on one verifier instance while the validator's answer changes; run through the real verifier.Verify. non-trivial = revocation not skipped and (some certificate not OK, or a validator error); distinct = distinct (vector, action, validators, scheme, format, error) tuples"
 	w.Assumptions = []string{
 		"the revocation validator returns one result per certificate (longer vectors index out of range in revocationFinalResult; outside the validator contract)",
 		"result classes are recognised from the error text of the revocation ValidationResult (\"is revoked\", \"revocation status is unknown\", \"unable to check revocation status\")",
@@ -172,20 +182,34 @@ func runC05(a *Args) error {
 			verr = errors.New("mock validator failure")
 			results = nil
 		}
-		script, calls := NewRevScript(results, verr)
-		opts := verifier.VerifierOptions{OCITrustPolicy: doc}
-		switch c.Val {
-		case 1:
-			opts.RevocationCodeSigningValidator = script.Validator()
-		case 2:
-			opts.RevocationClient = script.Client()
-		case 3:
-			opts.RevocationCodeSigningValidator = script.Validator()
-			opts.RevocationClient = script.Client()
-		}
-		v, err := verifier.NewVerifierWithOptions(e.store, opts)
-		if err != nil {
-			panic(fmt.Sprintf("c05: verifier construction: %v", err))
+		var v notation.Verifier
+		var calls *[]RevCall
+		if c.hist != nil && c.hist.v != nil {
+			// same verifier instance as the previous steps; only the validator's answer changes
+			v, calls = c.hist.v, c.hist.calls
+			c.hist.script.Results, c.hist.script.Err = results, verr
+			*calls = nil
+		} else {
+			var script *RevScript
+			script, calls = NewRevScript(results, verr)
+			opts := verifier.VerifierOptions{OCITrustPolicy: doc}
+			switch c.Val {
+			case 1:
+				opts.RevocationCodeSigningValidator = script.Validator()
+			case 2:
+				opts.RevocationClient = script.Client()
+			case 3:
+				opts.RevocationCodeSigningValidator = script.Validator()
+				opts.RevocationClient = script.Client()
+			}
+			nv, err := verifier.NewVerifierWithOptions(e.store, opts)
+			if err != nil {
+				panic(fmt.Sprintf("c05: verifier construction: %v", err))
+			}
+			v = nv
+			if c.hist != nil {
+				c.hist.v, c.hist.script, c.hist.calls = nv, script, calls
+			}
 		}
 		outcome, verr2 := v.Verify(context.Background(), e.desc, e.env[c.Format+"|"+string(scheme)], notation.VerifierVerifyOptions{ArtifactReference: TestRef, SignatureMediaType: c.Format})
 		// observation
@@ -229,7 +253,7 @@ func runC05(a *Args) error {
 		obs := CApp("mk_obs", CList(callTerms), resTerm, CBool(c.Rejected))
 		term := CApp("mk_case", CN(my), in, obs)
 		nontriv := c.Action != "Skip" && (c.VErr || hasNonOK(c.Vec))
-		key := fmt.Sprintf("%v|%v|%v|%v|%v|%v|%v|%v", c.Vec, c.Action, c.Val, c.SA, c.Format, c.VErr, c.Level, c.Anchor)
+		key := fmt.Sprintf("%v|%v|%v|%v|%v|%v|%v|%v|%v", c.Vec, c.Action, c.Val, c.SA, c.Format, c.VErr, c.Level, c.Anchor, c.Step)
 		w.Add(my, term, c, key, nontriv)
 		w.Count("chain_len", fmt.Sprint(c.N))
 		w.Count("trust_anchor", []string{"root", "middle", "leaf"}[c.Anchor])
@@ -331,7 +355,51 @@ func runC05(a *Args) error {
 			}
 		})
 	}
+	// 6. histories: several verifications of the same chain on ONE verifier instance while the validator's
+	// answer changes (passing first, then revoked / unknown / error, and back): every verification must consult
+	// the validator again and be judged on that answer alone (the model is a function of the step's input only)
+	nh := 40
+	if a.Tier == "thorough" {
+		nh = 600
+	}
+	for k := 0; k < nh; k++ {
+		n := 1 + rng.Intn(4)
+		h := &c05Hist{}
+		base := c05Case{N: n, Format: Pick(rng, formats), SA: rng.Bool(), Action: Pick(rng, []string{"Enforce", "Enforce", "Log"}), Level: Pick(rng, levels), Val: 1 + rng.Intn(3), Anchor: rng.Intn(3)}
+		steps := 2 + rng.Intn(3)
+		for st := 1; st <= steps; st++ {
+			c := base
+			c.hist, c.Step = h, st
+			c.Vec = make([]int, n)
+			switch {
+			case st == 1 || rng.Chance(1, 4):
+				for i := range c.Vec { // passing answer
+					c.Vec[i] = rng.Intn(2)
+				}
+			case rng.Chance(1, 5):
+				c.VErr = true
+			default:
+				for i := range c.Vec {
+					c.Vec[i] = rng.Intn(2)
+				}
+				c.Vec[rng.Intn(n)] = 2 + rng.Intn(2)
+			}
+			if k%2 == 1 && st > 1 && rng.Bool() { // the other envelope format of the same chain and scheme
+				c.Format = formats[(indexOf(formats, c.Format)+1)%2]
+			}
+			runCase(&c)
+		}
+	}
 	return w.Close()
+}
+
+func indexOf(xs []string, x string) int {
+	for i, y := range xs {
+		if y == x {
+			return i
+		}
+	}
+	return 0
 }
 
 func hasNonOK(v []int) bool {
